@@ -120,6 +120,38 @@ theorem C22_readLine_out {S : Bytes} (b : Reader) (h : RInv S b) (hnp : b.readLi
           rw [h2, List.append_assoc, dropLast_append_last hnl]
       · exact ⟨[], Or.inl rfl, fun _ => rfl, by simpa using h2⟩
 
+/-- **Reset**: after `Reset(r)` the Reader satisfies the invariant for the new source with an empty history
+    and `TotalRead = 0`, so every theorem above applies afresh to the new stream -/
+theorem C22_reader_reset {S : Bytes} (b : Reader) (src : Script) (h : RInv S b) :
+    RInv (srcBytes src) (b.reset src) ∧ (b.reset src).total = 0 ∧ (b.reset src).consumed = [] := by
+  refine ⟨⟨by simp [Reader.reset], rfl, ?_, h.capPos, by simp [Reader.reset], by simp [Reader.reset]⟩, rfl, rfl⟩
+  simp [Reader.reset]
+
+/-! ### loop fuel: the bounded loops of the model never run out of fuel
+
+  For every fuel at least as large as the one the model supplies the loop result is the same, and the
+  Peek loop ends in a state satisfying its own exit condition; so the `99`/truncation branch of the
+  fuel-indexed definitions is never what a method returns. -/
+
+theorem C22_fuel_peek (b : Reader) (n : Nat) (hn : n ≤ b.cap) :
+    (∀ f, b.fuel ≤ f → Reader.peekLoop f b n = Reader.peekLoop b.fuel b n) ∧
+    ¬ ((Reader.peekLoop b.fuel b n).cur.length < n ∧ (Reader.peekLoop b.fuel b n).err = 0) := by
+  have hm := mu_le_fuel b
+  refine ⟨stable_of_step (fun f => Reader.peekLoop f b n) b.fuel ?_, peekLoop_exit _ b n hn (by omega)⟩
+  intro f hf; exact peekLoop_stable f b n hn (by omega)
+
+theorem C22_fuel_readByte (b : Reader) (hcap : 0 < b.cap) :
+    ∀ f, b.fuel ≤ f → Reader.readByteLoop f b = b.readByte := by
+  have hm := mu_le_fuel b
+  refine stable_of_step (fun f => Reader.readByteLoop f b) b.fuel ?_
+  intro f hf; exact readByteLoop_stable f b hcap (by omega)
+
+theorem C22_fuel_readSlice (b : Reader) (d : UInt8) :
+    ∀ f, b.fuel ≤ f → Reader.readSliceLoop f b d = Reader.readSliceLoop b.fuel b d := by
+  have hm := mu_le_fuel b
+  refine stable_of_step (fun f => Reader.readSliceLoop f b d) b.fuel ?_
+  intro f hf; exact readSliceLoop_stable f b d (by omega)
+
 /-! ### Writer -/
 
 theorem C22_writer_inv (cap : Nat) (ws : WScript) (ops : List WOp) :
@@ -139,6 +171,10 @@ theorem C22_count_write (cap : Nat) (ws : WScript) (ops : List WOp) :
     let b := ops.foldl Writer.apply (Writer.new cap ws)
     b.total = b.accepted.length :=
   (C22_writer_inv cap ws ops).cnt
+
+/-- **Reset** (write side): unflushed data is dropped by design; history and counter restart at zero -/
+theorem C22_writer_reset (b : Writer) (ws : WScript) :
+    WInv (b.reset ws) ∧ (b.reset ws).total = 0 ∧ (b.reset ws).buf = [] := ⟨⟨rfl, rfl⟩, rfl, rfl⟩
 
 /-- `Write`/`WriteString` returning `n` took exactly the first `n` bytes offered -/
 theorem C22_write_takes_prefix (direct : Bool) (b : Writer) (p : Bytes) (h : WInv b) :
